@@ -689,7 +689,12 @@ func (ls *LState) where(level int, skipg bool) string {
 	}
 	line := ""
 	if proto != nil {
-		line = fmt.Sprintf("%v:", proto.DbgSourcePositions[cf.Pc-1])
+		if cf.Pc > 0 && cf.Pc <= len(proto.DbgSourcePositions) {
+			line = fmt.Sprintf("%v:", proto.DbgSourcePositions[cf.Pc-1])
+		} else {
+			// the frame has not executed an instruction yet (an error raised while it is being set up)
+			line = fmt.Sprintf("%v:", proto.LineDefined)
+		}
 	}
 	return fmt.Sprintf("%v:%v", sourcename, line)
 }
